@@ -70,10 +70,14 @@ def cleared_before(b, bb, op, f, depth=0):
                         return True, 'clear() dominates the site'
     # (b) mem::replace(&mut x, Vec::new()) where x was drained
     for c in o.calls:
-        if cname(c).endswith('mem::replace'):
+        is_take = strip_generics(cname(c)).endswith('mem::take')
+        if cname(c).endswith('mem::replace') or is_take:
             src = origin(b, c['args'][0])
-            newv = origin(b, c['args'][1])
-            fresh = any(cname(x).endswith('Vec::<T>::new') for x in newv.calls) or any(a[0] == 'call' and a[1].endswith('Vec::<T>::new') for a in newv.atoms)
+            if is_take:
+                fresh = True          # mem::take(&mut x) == mem::replace(&mut x, Default::default()): an empty Vec
+            else:
+                newv = origin(b, c['args'][1])
+                fresh = any(cname(x).endswith('Vec::<T>::new') for x in newv.calls) or any(a[0] == 'call' and a[1].endswith('Vec::<T>::new') for a in newv.atoms)
             drained = False
             for dbb, dt in b.calls():
                 if call_matches(dt, ['Vec::<T, A>::drain', 'Vec::<T, A>::clear']) and b.dominates(dbb, bb):
@@ -86,7 +90,7 @@ def cleared_before(b, bb, op, f, depth=0):
                             ro = origin(b, dt['args'][1])
                             drained = any(a[0] == 'agg' and a[1].endswith('RangeFull') for a in ro.atoms) and len(ro.atoms) == 1
             if fresh and drained:
-                return True, 'mem::replace(&mut x, Vec::new()) of a vector drained just before'
+                return True, 'mem::replace(&mut x, Vec::new()) / mem::take(&mut x) of a vector drained just before'
     return False, 'no dominating clear of the inserted value'
 
 
